@@ -131,6 +131,42 @@ def run(chk):
     chk.add_samples('huf-table', len(descs), len(set(descs)), [{'description': descs[i].hex()[:60], 'impl': impl[i][:60]} for i in (0, len(descs) // 2, len(descs) - 1)],
                     rule='direct weight descriptions (exhaustive for 1-3 weights incl. invalid ones, shuffled/perturbed compressor shapes beyond), FSE-compressed descriptions written by the compressor for 17..256 symbols and bit-flipped variants; distinct = distinct byte strings')
     chk.cov['components']['huf-table']['oracle_checked'] = nor
+    # ---- (d) whole literals sections as compress_literals writes them (header with its size format, description, jump
+    # table, streams), at the literal counts where the size format changes, wrapped into a one-block frame and decoded
+    # by this crate's decoder and by libzstd
+    sec_inputs = []
+    for n in [1025, 1026, 2047, 4096, 16382, 16383, 16384, 16385, 16386, 20000, 65535, 65536, 131071, 131072][: (14 if thorough else 11)]:
+        for k in ((40, 200) if thorough else (40,)):
+            alpha = [rng.below(256) for _ in range(k)]
+            sec_inputs.append(bytes(alpha[min(k - 1, int((rng.below(1000) / 1000.0) ** 2 * k))] for _ in range(n)))
+    sec_res = zh_par('pure', ['complit ' + d.hex() for d in sec_inputs])
+    sec_frames = []
+    for d, r in zip(sec_inputs, sec_res):
+        w = r.split()
+        if not w or w[0] != 'ok':
+            chk.violation('compress_literals failed on %d literals: %s' % (len(d), r[:60]), {'component': 'literal-section', 'input': 'complit ' + d.hex()[:200000], 'how': 'echo "<input>" | _build/cargo/release/zh pure'})
+            continue
+        body = bytes.fromhex(w[1]) + b'\x00'
+        if len(body) > 131072:
+            continue
+        sec_frames.append((d, framegen.frame_header_bytes(window_log=17) + framegen.block_header(1, 2, len(body)) + body))
+    zr = zh_par('codec', ['zdec %s' % f.hex() for d, f in sec_frames])
+    pr = zh_par('prog', ['src=%s I Ba C' % f.hex() for d, f in sec_frames])
+    nsec = 0
+    for (d, f), z, pgm in zip(sec_frames, zr, pr):
+        zw = z.split()
+        ok_ref = len(zw) >= 2 and zw[0] == 'ok' and zw[1] == (d.hex() if d else '-')
+        if not ok_ref and len(chk.violations) < 3:
+            chk.violation('the literals section written for %d literals is not decoded to them by the reference decoder: %s' % (len(d), z[:80]),
+                          {'component': 'literal-section', 'literal_count': len(d), 'frame_hex': f.hex()[:300000], 'input': 'complit ' + d.hex()[:300000],
+                           'how': 'echo "<input>" | _build/cargo/release/zh pure ; wrap the section into a compressed block without sequences and decode'})
+        if ('C:' + d.hex()) not in pgm.split() and len(chk.violations) < 3:
+            chk.violation('the literals section written for %d literals is not decoded to them by this crate: %s' % (len(d), pgm[:80]),
+                          {'component': 'literal-section', 'literal_count': len(d), 'frame_hex': f.hex()[:300000], 'input': 'complit ' + d.hex()[:300000],
+                           'how': 'echo "src=<frame_hex> I Ba C" | _build/cargo/release/zh prog'})
+        nsec += 1
+    chk.cov['components']['literal-section'] = {'evaluations': nsec, 'literal_counts': sorted(set(len(d) for d in sec_inputs))}
+    chk.cov['evaluations'] += nsec
     # ---- (c) literal round trips through the crate's own encoder and decoder (1 and 4 streams)
     rt_lines = []
     for _ in range(300 if thorough else 80):
